@@ -153,6 +153,10 @@ func genReuseHistory(rt *rapid.T) history {
 			rec1 = append(rec1, hop{K: "ev", S: s1, T: pick(rt, "t1", evTypeNames), P: p})
 		}
 		rec1 = append(rec1, hop{K: "disp", S: s1, P: p})
+		if rapid.IntRange(0, 2).Draw(rt, "afterdisp") == 0 {
+			// sshd logs USER_END after CRED_DISP for some PAM stacks (cron-like order)
+			rec1 = append(rec1, hop{K: "ev", S: s1, T: pick(rt, "tad", []string{"USER_END", "USER_LOGIN", "SYSCALL"}), P: p})
+		}
 		pos := rapid.IntRange(0, len(rec1)).Draw(rt, "login1pos")
 		if rapid.IntRange(0, 2).Draw(rt, "late1") == 0 {
 			pos = len(rec1) // all records precede the login line (short session)
